@@ -270,3 +270,19 @@ package sender
 //@   loop[C02] 1: invariant [strong-sum-of-block] doneCsum2 ==> len(sum2) == 16 && bid(sum2) == strongSum(st.Seed, fileSeg(data(ms.f), offset, min(head.BlockLength, ms.fileSize - offset)))
 //@   at[C02] (*sender.Transfer).matched@1: assert [strong-checksum-gate] l == head.Sums[i].Len && base(local) == base(sum2) && off(local) == off(sum2) && len(local) == head.ChecksumLength && len(remote) == head.ChecksumLength && bid(local) == bid(remote) && bid(sum2) == strongSum(st.Seed, fileSeg(data(ms.f), offset, l))
 //@   at[C02] (*sender.Transfer).matched@3: assert [final-flush-at-eof] arg4 == ms.fileSize && arg5 == -1
+
+// ---------------------------------------------------------------- C16: no candidate block is overlooked
+// The search finds a match at an offset whenever one exists there, provided
+// every signature block whose 16-bit tag equals the window's tag is compared.
+// SendFiles: targets are sorted by tag, and the tag table maps every tag that
+// occurs to the FIRST index of its run and nothing else (a fresh table per file).
+//@ spec func tagsSorted(targets: []sender.target): bool = forall a, b :: 0 <= a && a <= b && b < len(targets) ==> targets[a].tag <= targets[b].tag
+//@ spec func tableFirst(tagTable: map[uint16]int, targets: []sender.target): bool = (forall q :: 0 <= q && q < len(targets) ==> has(tagTable, targets[q].tag) && 0 <= tagTable[targets[q].tag] && tagTable[targets[q].tag] <= q) && (forall t :: has(tagTable, t) ==> 0 <= tagTable[t] && tagTable[t] < len(targets) && targets[tagTable[t]].tag == t)
+//@ func (*sender.Transfer).SendFiles
+//@   loop[C16] 2: invariant [first-index-of-each-tag] len(targets) == len(head.Sums) && -1 <= idx && idx < len(targets) && tagsSorted(targets) && (forall q :: idx < q && q < len(targets) ==> has(tagTable, targets[q].tag) && idx < tagTable[targets[q].tag] && tagTable[targets[q].tag] <= q) && (forall t :: has(tagTable, t) ==> idx < tagTable[t] && tagTable[t] < len(targets) && targets[tagTable[t]].tag == t)
+//@ func (*sender.Transfer).hashSearch
+//@   requires[C16] [tags-sorted] tagsSorted(targets)
+//@   requires[C16] [table-points-to-first-of-run] tableFirst(tagTable, targets) && len(targets) == head.ChecksumCount
+//@   loop[C16] 1: invariant [run-scanned-so-far] ok && 0 <= j && tagTable[tag] <= j && (forall q :: tagTable[tag] <= q && q < j && q < len(targets) ==> targets[q].tag == tag)
+//@   at[C16] (*sender.mapStruct).ptr@3: assert [whole-run-compared] !ok || st.lastMatch == offset + 1 || j >= head.ChecksumCount || targets[j].tag != tag
+//@   at[C16] (*sender.mapStruct).ptr@3: assert [no-candidate-outside-the-scan] ok && st.lastMatch != offset + 1 ==> (forall q :: 0 <= q && q < len(targets) && targets[q].tag == tag ==> tagTable[tag] <= q && q < j)
